@@ -135,6 +135,23 @@ def run(ctx):
         add("visin", rng.choice(ag2) + rs(UP, rng.choice((0, 9, 11))))
         add("visin", rs(UP, 2) + rs(UP, 10))      # mostly unknown prefixes
         add("visin", rng.choice([a for a in agencies if len(a) == 1]) + rs(UP, 11))
+    # --- valid identifiers with white space / line ends / a sign around them (what reading a file line by line,
+    # or copy-and-paste, produces): never valid
+    for _ in range(max(40, m // 4)):
+        b = rs(rng.choice((DIG, UP)), 8)
+        try:
+            goodc = b + utils.cusip_checksum(b)
+        except Exception:
+            goodc = "084670108"
+        bi = rng.choice(ag2) + rs(rng.choice((DIG, UP)), 9)
+        try:
+            goodi = bi + utils.isin_checksum(bi)
+        except Exception:
+            goodi = "US0846701086"
+        for w in ("\n", "\r", "\r\n", " ", "\t", "\x0b", "\x0c", "\x1c", "\x85", "\u2028", "\u00a0", "+", "-"):
+            for good, op in ((goodc, "vcusip"), (goodi, "visin")):
+                add(op, good + w); add(op, w + good)
+                add(op, good[:-1] + w); add(op, good[:4] + w + good[4:])
     # --- conversions ---
     for _ in range(m):
         b = rs(rng.choice((DIG, UP, UP, CUS)), 8)
